@@ -876,10 +876,11 @@ def check_session_growth(rep, stats):
             alive = True
             for k in range(n):
                 e.send("go depth 1")
-                if k % 40 == 39 or k == n - 1:
-                    if e.sync(20) is None:
-                        alive = False
-                        break
+                # every command is answered — by a bestmove or by a refusal — before the next one is sent
+                lines, ok, eof = e.read_until(lambda l: l.startswith("bestmove") or l.startswith("error"), 10)
+                if eof or (not ok and e.sync(10) is None):
+                    alive = False
+                    break
             stats["session_growth_go_commands"] += n
         finally:
             rc, err = e.close()
